@@ -56,7 +56,9 @@ def gen_system(R, nmax):
         x = R.random()
         if x < 0.45:
             A = {"gen": "imagq", "m": n, "n": n, "seed": s}
-            if R.random() < 0.5:
+            if R.random() < 0.5 and n >= 2:
+                # (for n = 1 the "tiny leading entry" IS the matrix: a uniform scale of 1e-9, times the
+                # run's own scale, leaves the quantified range 1e-6..1e6 - DESIGN 6.3)
                 A["tiny00"] = R.choice([1e-3, 1e-6, 1e-9])
         elif x < 0.6:
             A = {"gen": "realq", "m": n, "n": n, "seed": s}
